@@ -296,6 +296,8 @@ class Bag(Factory, Container):
                         else:
                             raise JsonFormatException(nv["v"], f"Bag.values {i} v")
 
+                        if v in values:
+                            raise JsonFormatException(nv, f"Bag.values {i} v (duplicate value)")
                         values[v] = n
 
                     else:
